@@ -203,7 +203,11 @@ XMLUCS4Transcoder::transcodeTo( const   XMLCh* const    srcData
 
             // And now combine the two into a single output char
             const XMLInt32 SURROGATE_OFFSET = 0x10000 - (0xD800 << 10) - 0xDC00;
-            *outPtr++ = (curCh << 10) + trailCh + SURROGATE_OFFSET;
+            const UCS4Ch pairCh = (curCh << 10) + trailCh + SURROGATE_OFFSET;
+            if (fSwapped)
+                *outPtr++ = BitOps::swapBytes(pairCh);
+            else
+                *outPtr++ = pairCh;
         }
          else
         {
